@@ -1170,8 +1170,18 @@ func genSource(o genOpts) func(t *rapid.T) Case {
 		}
 		secNames := []string{"code", "main", "prog_b", "S2", "worker", "romA"}
 		var secs []*sectionSrc
+		// one source in four names its sections N, N_0, N_1: the names the assembler itself derives when it
+		// re-emits a section
+		derived := nSec > 1 && rapid.IntRange(0, 3).Draw(t, "derivednames") == 0
+		derivedBase := rapid.SampledFrom(secNames).Draw(t, "derivedbase")
 		for i := 0; i < nSec; i++ {
 			name := secNames[(i*2+rapid.IntRange(0, 1).Draw(t, "sname"))%len(secNames)]
+			if derived {
+				name = derivedBase
+				if i > 0 {
+					name = fmt.Sprintf("%s_%d", derivedBase, i-1)
+				}
+			}
 			secIO := rapid.SampledFrom([]string{"sync", "sync", "sync", "", "", "async"}).Draw(t, "secio")
 			if o.Leak && (secIO == "async" || global == "") {
 				secIO = "sync"
